@@ -506,6 +506,10 @@ class Check(object):
                               % (" ".join(mod.LEAN_MODULES),
                                  " && lake env leanchecker " + " ".join(mod.LEAN_MODULES) if self.tier == "thorough" else ""))
         cov["trusted_base"] = list(mod.TRUSTED_BASE)
+        if not cov["obligations"]:
+            # the property module did not build: no obligation was discharged in this run
+            cov["obligations_note"] = "0 obligations discharged (the Lean module does not check)"
+            del cov["obligations"], cov["discharged"]
         cov["disagreements_checked"] = len(self.disagreements)
         cov["known_findings_seen"] = self.known_seen
         cov["broken"] = self.broken
